@@ -26,6 +26,14 @@ CLAIMED = {
             _LV + "C06: same acceptance, equal results, corresponding errors across the three debug modes.", _NOTE, "DESIGN.md 5/C06"),
     "C07": ("pairwise differential strict vs lax closures on the same symbolic input (CrossHair + z3) + strict-origin table",
             _LV + "C07: strict ok => lax ok with same value; strict accepts only documented origins.", _NOTE, "DESIGN.md 5/C07"),
+    "C08": ("CrossHair symbolic execution of the real get_literal_expr/is_singleton and of generated model loaders with an instrumented constructor; z3 path exhaustion over selector-built look-alike values and symbolic presence/field values",
+            _LV + "C08: rendered literals evaluate to equal values of exactly the same type; absent fields hold the true default; the real constructor runs once.", _NOTE, "DESIGN.md 5/C08"),
+    "C09": ("CrossHair symbolic execution of the real router/combiner/request bus with symbolic recipes (inductive step form) and of chained loaders on symbolic ints",
+            _LV + "C09: first-match routing, no double consultation, Chain.FIRST/LAST composition, extend/replace/retort-in-recipe.", _NOTE, "DESIGN.md 5/C09"),
+    "C11": ("differential warmed-retort vs fresh-retort closures on a symbolic datum (CrossHair + z3) + cache-key soundness of the real cached_call",
+            _LV + "C11: histories over a pool of mutually confusable types are enumerated natively (stated as enumeration), the datum is symbolic.", _NOTE, "DESIGN.md 5/C11"),
+    "C15": ("differential loaders of equivalent spellings on a symbolic datum (CrossHair + z3); structural congruence by labelled native enumeration",
+            _LV + "C15: equal/hash-equal/idempotent normal forms inside groups of equivalent hints, unequal across groups (enumeration, labelled), behavioural equivalence on symbolic data.", _NOTE, "DESIGN.md 5/C15"),
     "C20": ("CrossHair symbolic execution of real combinators: deep snapshot of argument, two calls, identity-disjointness of built containers",
             _LV + "C20: argument untouched, repeatable, fresh containers.", _NOTE, "DESIGN.md 5/C20"),
 }
